@@ -600,3 +600,95 @@ _jobs_base3 = jobs
 
 def jobs(tier):
     return _jobs_base3(tier) + bconv_jobs(tier)
+
+
+# ======================================================================
+# bounded companions of match_unsigned / match_and_convert_* / maximum_rule: real bodies incl. accumulate_digit, no loop
+# contract, no woven ghost: complete unwinding (the digit loop ends after at most NBM digits: windows are NBM+2 bytes
+# long at most).  Keeps these functions decided when their loop is restructured (seeded change C02-maxrule-bump-per-digit
+# made the loop contracts unweavable: undecided instead of violation).  Labelled bounded.
+# ======================================================================
+NBM = 21
+BM_SPEC = '''
+typedef unsigned __int128 WIDEB;
+/* number of leading decimal digits at p (counted up to NBM+1) */
+static inline size_t vf_ndig(const vf_u8* p, size_t n) { size_t d = 0; for (int j = 0; j < %d; ++j) if (d == (size_t)j && (size_t)j < n && p[j] >= '0' && p[j] <= '9') d++; return d; }
+static inline WIDEB vf_hornerb(const vf_u8* p, size_t n) { WIDEB h = 0; for (int j = 0; j < %d; ++j) if ((size_t)j < n) h = h * 10 + (WIDEB)(p[j] - '0'); return h; }
+/* documented behaviour: 0 | [1-9][0-9]* not followed by a digit, value <= mx; returns consumed length, 0 = no match */
+static inline size_t vf_maxnum_len(const vf_u8* p, size_t n, WIDEB mx, _Bool* overflow)
+{
+  size_t d = vf_ndig(p, n);
+  *overflow = 0;
+  if (d == 0) return 0;
+  if (p[0] == '0') return d == 1 ? 1 : 0;
+  if (d > %d || vf_hornerb(p, d) > mx) { *overflow = 1; return 0; }
+  return d;
+}
+static inline size_t vf_maxnum(const vf_u8* p, size_t n, WIDEB mx) { _Bool o; return vf_maxnum_len(p, n, mx, &o); }
+static inline _Bool vf_maxnum_ovf(const vf_u8* p, size_t n, WIDEB mx) { _Bool o; (void)vf_maxnum_len(p, n, mx, &o); return o; }
+''' % (NBM + 1, NBM + 1, NBM)
+
+
+def bm_jobs(tier):
+    out = []
+    for name, tr, expr, extra in SCAN_ROOTS:
+        if name.startswith('mu_') or name.startswith('urule_'):
+            k, ct, mc, kind, with_st = None, None, None, 'scan', False
+        elif name.startswith(('mcn_', 'mct_', 'maxrule_')):
+            k = name.split('_')[1]
+            _, t, ct, mcxx, mc = [m for m in MC if m[0] == k][0]
+            kind = 'throws' if name.startswith('mct_') else 'nothrow'
+            with_st = not name.startswith('maxrule_')
+        else:
+            continue
+        if tier != 'thorough' and tr == 'lazy' and k not in ('u8', None):
+            continue
+        if k == 'u64':
+            continue      # 20-digit strings with 64-bit multiplications against a 128-bit Horner spec: no answer within 10 min; the u8/u16/u32 instantiations share the code
+        P = ('C15',)
+        con = Contract(R('VALID_PRE(in) && vf_exc.pending == 0'))
+        if with_st:
+            con.add(R('__CPROVER_w_ok(st, sizeof(%s)) && *st == 0' % ct, 'st-pre'))
+            con.add(A('IT_FIELDS(in), *st, vf_exc, vf_exc_counter'))
+        else:
+            con.add(A('IT_FIELDS(in), vf_exc, vf_exc_counter'))
+        con.add(E('VALID_POST(in)', 'RC-VALID', ('C02', 'C03')))
+        con.add(E('MONO(in)', 'RC-MONO', ('C02',)))
+        con.add(E('(!vf_exc.pending && !RET) ==> ITER_UNCHANGED(in)', 'RC-REWIND', ('C02',)))
+        if kind == 'scan':
+            # unsigned_rule / match_unsigned: any number of digits, no maximum: only the window bound limits the length
+            con.add(E('vf_exc.pending == 0', 'BOUNDED-NOTHROW', P))
+            con.add(E("RET == (vf_ndig(UOLD(in), AVAIL_OLD(in)) >= 1 && (UOLD(in)[0] != '0' || vf_ndig(UOLD(in), AVAIL_OLD(in)) == 1))", 'BOUNDED-NUMERAL-SYNTAX', P))
+            con.add(E('RET ==> CONSUMED(in) == vf_ndig(UOLD(in), AVAIL_OLD(in))', 'BOUNDED-NUMERAL-LENGTH', P))
+        else:
+            M = '(WIDEB)%s' % mc
+            if kind == 'nothrow':
+                con.add(E('vf_exc.pending == 0', 'BOUNDED-NOTHROW', P))
+                con.add(E('RET == (vf_maxnum(UOLD(in), AVAIL_OLD(in), %s) > 0)' % M, 'BOUNDED-ACCEPT-EXACT', P))
+            else:
+                con.add(E('vf_exc.pending == vf_maxnum_ovf(UOLD(in), AVAIL_OLD(in), %s)' % M, 'BOUNDED-RAISES-EXACTLY-ON-OVERFLOW', P + ('C05',)))
+                con.add(E('!vf_exc.pending ==> (RET == (vf_maxnum(UOLD(in), AVAIL_OLD(in), %s) > 0))' % M, 'BOUNDED-ACCEPT-EXACT', P))
+            con.add(E('(!vf_exc.pending && RET) ==> CONSUMED(in) == vf_maxnum(UOLD(in), AVAIL_OLD(in), %s)' % M, 'BOUNDED-LENGTH-EXACT', P))
+            if with_st:
+                con.add(E('(!vf_exc.pending && RET) ==> (WIDEB)*st == vf_hornerb(UOLD(in), CONSUMED(in))', 'BOUNDED-VALUE-EXACT', P))
+        con.add(E('!RET || vf_canary', 'canary_ok'))
+        con.add(E('RET || vf_canary', 'canary_fail'))
+        extra_decl = ('  %s st = 0;\n' % ct) if with_st else ''
+        call = 'w_ret = $ENTRY(&in, &st)' if with_st else 'w_ret = $ENTRY(&in)'
+        j = Job('b_' + name, NAME, name, con, ('C15', 'C02', 'C03'), prelude=prelude(tr) + BM_SPEC,
+                harness=input_harness('vf_' + INPUT_TYPES[(tr, 'lf_crlf')], tr, call, extra_decl=extra_decl,
+                                      pre_call='  vf_exc.pending = 0; __CPROVER_assume(g_n - k <= %d);\n' % (NBM + 1)),
+                stubs=[], unwind=NBM + 4, flags=['--object-bits', '10'],
+                bounded='at most %d bytes after the cursor (digit strings of at most %d digits), real callee bodies, complete unwinding (unwinding assertions on)' % (NBM + 1, NBM + 1),
+                expect_fail_canary=canaries(), timeout=600,
+                replay=({'kind': 'leaf', 'tracking': tr, 'eol': 'lf_crlf', 'defs': BM_SPEC.replace('_Bool', 'bool')} if not with_st else None),
+                desc='BOUNDED companion of %s' % name)
+        out.append(j)
+    return out
+
+
+_jobs_base4 = jobs
+
+
+def jobs(tier):
+    return _jobs_base4(tier) + bm_jobs(tier)
